@@ -32,15 +32,18 @@ PA == [cautious : B, pq : B, clean : B, ns : {"n", "s"}]
 PAUsed == {[cautious |-> "F", pq |-> "F", clean |-> "F", ns |-> "n"],
            [cautious |-> "T", pq |-> "T", clean |-> "F", ns |-> "n"],
            [cautious |-> "F", pq |-> "T", clean |-> "T", ns |-> "s"]}
-PNone == [cautious |-> NA, pq |-> NA, clean |-> NA, ns |-> NA, lay |-> NA]
-\* (lay: the layout keyword of parse(); a committed parse with it must not bind later parses)
+PNone == [cautious |-> NA, pq |-> NA, clean |-> NA, ns |-> NA, lay |-> NA, ocr |-> NA]
+\* (lay: the layout keyword of parse(); a committed parse with it must not bind later parses.
+\*  ocr: the ocr_scrub keyword - the text holds a Twp/Rge only the OCR pattern reads, so the keyword matters for that
+\*  call, and for that call only)
 PKwUsed == {PNone,
             [PNone EXCEPT !.cautious = "T"],
             [PNone EXCEPT !.cautious = "F", !.pq = "T"],
             [PNone EXCEPT !.pq = "T", !.clean = "T", !.ns = "s"],
             [PNone EXCEPT !.pq = "F"],
             [PNone EXCEPT !.lay = "copy_all"],
-            [PNone EXCEPT !.lay = "TR_desc_S", !.pq = "T"]}
+            [PNone EXCEPT !.lay = "TR_desc_S", !.pq = "T"],
+            [PNone EXCEPT !.ocr = "T"]}
 PEff(a, k) == [cautious |-> Ov(a.cautious, k.cautious), pq |-> Ov(a.pq, k.pq), clean |-> Ov(a.clean, k.clean),
                ns |-> Ov(a.ns, k.ns)]
 
